@@ -226,8 +226,9 @@ class Expr:
       ('unk', what)
     """
 
-    def __init__(self, body):
+    def __init__(self, body, crate=None):
         self.body = body
+        self.crate = crate          # when given, calls of pure private helpers are replaced by their summary
         self.defs = defs_of(body)
         self._memo = {}
 
@@ -249,6 +250,10 @@ class Expr:
                 info = callee_info(t["callee"])
                 args = [self.operand(a, depth + 1) for a in t["args"]]
                 r = ("call", info["key"], info["def"], args, bi, info["targs"])
+                if self.crate is not None and info["def"] in self.crate.bodies:
+                    sm = helper_summary(self.crate, self.crate.bodies[info["def"]])
+                    if sm is not None:
+                        r = subst_args(sm, args)
             else:
                 r = self.rvalue(body.blocks[bi]["stmts"][si]["rv"], depth + 1)
         else:
@@ -395,7 +400,7 @@ def show(e, depth=0):
         return "_%d" % e[1]
     if k == "fn":
         return "fn:" + e[1]
-    if k in ("try", "ok", "residual", "errprop"):
+    if k in ("try", "ok", "residual", "errprop", "okval", "errval", "elem", "acc"):
         return "%s(%s)" % (k, show(e[1], d))
     if k == "static":
         return "static:" + short(e[1])
@@ -415,3 +420,41 @@ def loc(body, bb, si=None):
     if not sp:
         sp = body.span
     return "%s:%s" % (sp["f"], sp["l"])
+
+
+# ------------------------------------------------------------------------------------------------ helper summaries
+def helper_summary(crate, callee):
+    """Return term of a pure, single-path, private, non-anchor helper (with ('arg', i, ..) placeholders), else None."""
+    cache = crate.__dict__.setdefault("_summaries", {})
+    if callee.defn in cache:
+        return cache[callee.defn]
+    cache[callee.defn] = None
+    from . import walk as W
+    w = W.Walker(callee, crate)
+    if not w._auto_inlinable(callee, ()):
+        return None
+    paths = w.run()
+    res = None
+    if len(paths) == 1 and paths[0].outcome[0] == "return" and not paths[0].stores():
+        res = paths[0].outcome[1]
+    cache[callee.defn] = res
+    return res
+
+
+def subst_args(term, args):
+    if not isinstance(term, tuple):
+        return term
+    if term[0] == "arg":
+        i = term[1] - 1
+        return args[i] if 0 <= i < len(args) else term
+    if term[0] == "call":
+        return ("call", term[1], term[2], [subst_args(a, args) for a in term[3]], term[4], term[5])
+    out = []
+    for x in term:
+        if isinstance(x, tuple):
+            out.append(subst_args(x, args))
+        elif isinstance(x, list):
+            out.append([subst_args(y, args) if isinstance(y, tuple) else y for y in x])
+        else:
+            out.append(x)
+    return tuple(out)
